@@ -35,7 +35,7 @@ def prepare_scratch():
     for name, rel in ATTACH.items():
         hf = os.path.join(VERIF, "kani", name + ".rs")
         if os.path.exists(hf) and os.path.exists(os.path.join(scratch, rel)):
-            inject_hook(scratch, rel, f'#[cfg(any(kani, verif_replay))]\n#[path = "{hf}"]\nmod verif_kani_{name};')
+            inject_hook(scratch, rel, f'#[cfg(any(kani, verif_replay))]\n#[path = "{hf}"]\npub(crate) mod verif_kani_{name};')
     return scratch
 
 
